@@ -51,7 +51,7 @@ where T: Ring + Bridge, for<'x> &'x T: RingOps<T>, T::O: OEuc {
         let (a, ao) = pool[i].clone();
         let (m, n) = (ao.m, ao.n);
         if m == 0 || n == 0 { zero_dim = true }
-        let op = rng.below(24);
+        let op = rng.below(27);
         let res: Result<Option<(SpMat<T>, OMat<T::O>)>, crate::ctx::PanicRec> = match op {
             0 => {
                 // construction from triplets with duplicates and explicit zeros
@@ -187,9 +187,21 @@ where T: Ring + Bridge, for<'x> &'x T: RingOps<T>, T::O: OEuc {
                         let sub = v.subvec(at..n);
                         let pv = v.permute(PermOwned::new(p2).view());
                         let sum = &v + &v - &v;
+                        // further constructors / conversions: stack_vecs, from_sorted_entries, into_vec, into_mat, extract
+                        let sv = SpVec::stack_vecs([v1.clone(), v2.clone()]);
+                        let fs = SpVec::from_sorted_entries(n, v.iter().map(|(k, x)| (k, x.clone())).collect::<Vec<_>>());
+                        let dv: Vec<T> = v.clone().into_vec();
+                        let mv = v.clone().into_mat();
+                        let ex = v.extract(n, |k| (k >= at).then(|| k - at));
+                        let extra_ok = spvec_to_o(&sv) == spvec_to_o(&v) && spvec_to_o(&fs) == spvec_to_o(&v)
+                            && dv.iter().map(|x| x.to_o()).collect::<Vec<_>>() == spvec_to_o(&v)
+                            && mv.shape() == (n, 1) && (0..n).all(|k| sp_to_o(&mv).at(k, 0) == &spvec_to_o(&v)[k])
+                            && { let e = spvec_to_o(&ex); let w = spvec_to_o(&v); (0..n).all(|k| if k + at < n { e[k] == w[k + at] } else { e[k].is0() }) };
+                        if !extra_ok { panic!("C13-spvec-constructors-differ") }
                         (spvec_to_o(&av), spvec_to_o(&v1), spvec_to_o(&v2), spvec_to_o(&st), spvec_to_o(&sub), spvec_to_o(&pv), spvec_to_o(&sum), v.dim())
                     });
                     match r {
+                        Err(e) if e.brief().contains("C13-spvec-constructors-differ") => { bail!("spvec-constructors", "stack_vecs / from_sorted_entries / into_vec / into_mat / extract differ from the definition".to_string()) }
                         Ok((av, v1, v2, st, sub, pv, sum, d)) => {
                             let exp = ao.mul(&omat_vec(&vo)).d;
                             let mut perm = vec![T::O::o0(); n];
@@ -217,6 +229,25 @@ where T: Ring + Bridge, for<'x> &'x T: RingOps<T>, T::O: OEuc {
                 }
             }
             22 => { hist.push(format!("m{} = id({m}) * m{i}", pool.len())); guarded(|| Some((SpMat::id(m) * &a, ao.clone()))) }
+            24 | 25 => {
+                // permutation matrices: row_perm(p) * a = a.permute_rows(p), a * col_perm(q) = a.permute_cols(q)
+                let (p, q) = (rng.perm(m), rng.perm(n));
+                hist.push(format!("m{} = {} [perm {:?}]", pool.len(), if op == 24 { format!("from_row_perm * m{i}") } else { format!("m{i} * from_col_perm") }, if op == 24 { &p } else { &q }));
+                let mut mo = OMat::<T::O>::zero(m, n);
+                for r in 0..m { for c in 0..n { if op == 24 { mo.set(p[r], c, ao.at(r, c).clone()) } else { mo.set(r, q[c], ao.at(r, c).clone()) } } }
+                guarded(move || {
+                    let (pp, qq) = (PermOwned::new(p), PermOwned::new(q));
+                    Some((if op == 24 { SpMat::<T>::from_row_perm(pp.view()) * &a } else { &a * SpMat::<T>::from_col_perm(qq.view()) }, mo))
+                })
+            }
+            26 => {
+                // extract: entries moved by a partial index map (here: keep rows >= r0, transpose into an n x (m - r0) matrix)
+                let r0 = rng.urange(0, m);
+                hist.push(format!("m{} = m{i}.extract(({n}, {}), |i, j| (i >= {r0}).then(|| (j, i - {r0})))", pool.len(), m - r0));
+                let mut mo = OMat::<T::O>::zero(n, m - r0);
+                for r in r0..m { for c in 0..n { mo.set(c, r - r0, ao.at(r, c).clone()) } }
+                guarded(move || Some((a.extract((n, m - r0), |i, j| (i >= r0).then(|| (j, i - r0))), mo)))
+            }
             _ => { hist.push(format!("m{} = m{i} + zero", pool.len())); guarded(|| Some((&a + SpMat::zero((m, n)), ao.clone()))) }
         };
         match res {
